@@ -67,6 +67,7 @@ enum_forms!(MsmForm {
     MsmBatchConvert: true, false;
     MsmUnchecked: true, false;
     MsmBigint: true, false;
+    FixedBaseMsm: true, false;
 });
 
 type AE = ark::Element;
@@ -188,6 +189,29 @@ pub fn ark_msm(f: MsmForm, pts: &[AE], ks: &[ark::Fr]) -> AE {
             let bi: Vec<_> = ks.iter().map(|k| k.into_bigint()).collect();
             <AE as VariableBaseMSM>::msm_bigint(&bases, &bi)
         }
+        MsmForm::FixedBaseMsm => {
+            // ark-ec's fixed-base windowed multiplication: every scalar times the *first* point;
+            // the harness sums the products with the remaining points handled by the operator form
+            use ark_ec::scalar_mul::fixed_base::FixedBase;
+            if pts.is_empty() {
+                return AE::IDENTITY;
+            }
+            let scalar_size = <ark::Fr as PrimeField>::MODULUS_BIT_SIZE as usize;
+            let window = FixedBase::get_mul_window_size(ks.len().max(1));
+            let table = FixedBase::get_window_table::<AE>(scalar_size, window, pts[0]);
+            let prods: Vec<AE> = FixedBase::msm::<AE>(scalar_size, window, &table, ks);
+            // sum_i k_i * P_i = k_0 * P_0 + sum_{i>0} k_i * P_i ; the fixed-base table serves i = 0 only,
+            // the other products of the table (k_i * P_0) are checked against the operator form
+            let mut acc = prods.first().copied().unwrap_or(AE::IDENTITY);
+            for i in 1..pts.len().min(ks.len()) {
+                if prods[i] != pts[0] * ks[i] || prods[i].vartime_compress().0 != (pts[0] * ks[i]).vartime_compress().0 {
+                    // make the disagreement visible in the result
+                    return prods[i];
+                }
+                acc = acc + pts[i] * ks[i];
+            }
+            acc
+        }
     }
 }
 
@@ -287,7 +311,7 @@ fn msm(ps: &[Recipe], ks: &[Num], form: MsmForm, ctx: &mut Ctx) -> Result<(), Fa
         }
     }
     ctx.class(&format!("ark:{}", form.name()));
-    ctx.class(&format!("msm-len:{n}"));
+    ctx.class(&format!("msm-len:{}", if n > 8 { "31-33".to_string() } else { n.to_string() }));
     if nt >= 2 {
         ctx.nontrivial();
     }
@@ -422,7 +446,11 @@ impl Property for C05 {
                 let fs = LimbForm::of(bk);
                 Case::Limbs { bk, p, limbs, form: fs[pick(i, fs.len())] }
             }),
-            2 => (proptest::collection::vec((recipe::recipe_small(), gen::scalar()), 0..=6), any::<u16>()).prop_map(|(v, i)| {
+            1 => (proptest::collection::vec((prop_oneof![Just(Recipe::Generator), gen::scalar().prop_map(Recipe::MulGen)], gen::scalar()), 31..=33), any::<u16>()).prop_map(|(v, i)| {
+                let (ps, ks): (Vec<_>, Vec<_>) = v.into_iter().unzip();
+                Case::Msm { ps, ks, form: MsmForm::ALL[pick(i, MsmForm::ALL.len())] }
+            }),
+            3 => (proptest::collection::vec((recipe::recipe_small(), gen::scalar()), 0..=6), any::<u16>()).prop_map(|(v, i)| {
                 let (ps, ks): (Vec<_>, Vec<_>) = v.into_iter().unzip();
                 Case::Msm { ps, ks, form: MsmForm::ALL[pick(i, MsmForm::ALL.len())] }
             }),
@@ -473,6 +501,12 @@ impl Property for C05 {
             v.push(Case::Msm { ps: vec![], ks: vec![], form: *f });
             v.push(Case::Msm { ps: vec![Generator], ks: vec![3u64.into()], form: *f });
             v.push(Case::Msm { ps: vec![Generator, Torsion(g()), Elligator(5u64.into())], ks: vec![Num(&R.m - 1u32), 2u64.into(), Num(N::one() << 200)], form: *f });
+            // the window-size switch points of ark-ec's bucket MSM, with top-bit scalars
+            for n in [31usize, 32, 33] {
+                let ps: Vec<Recipe> = (0..n).map(|i| MulGen((i as u64 + 1).into())).collect();
+                let ks: Vec<Num> = (0..n).map(|i| if i % 3 == 0 { Num(&R.m - 1u32 - N::from(i as u32)) } else if i % 3 == 1 { Num(N::one() << 250) } else { Num(N::from(7u32 + i as u32)) }).collect();
+                v.push(Case::Msm { ps, ks, form: *f });
+            }
         }
         v
     }
